@@ -210,3 +210,110 @@ Fixpoint failures {A} (f : A -> nat) (l : list A) (i : Z) : list (Z * Z) :=
   end.
 
 Definition jb_spec_failures (cases : list jb_case) : list (Z * Z) := failures jb_spec_code cases 0.
+
+(* ---------- the exported PriorityQueue, driven directly ---------- *)
+Inductive qop : Type :=
+| QPush (prio sq ts : Z)   (* Push(&rtp.Packet{SequenceNumber: sq, Timestamp: ts}, prio) *)
+| QFind (sq : Z)
+| QPop
+| QPopAt (sq : Z)
+| QPopAtTs (ts : Z)
+| QClear
+| QLength.
+
+Definition stop {A} (r : Res A) : list out := match r with Diverge => [RDiverge] | _ => [RPanic] end.
+
+(* run over the pointer-level queue; object ids are assigned in push order *)
+Fixpoint pq_run (q : pq) (nid : Z) (ops : list qop) : list out :=
+  match ops with
+  | [] => []
+  | o :: tl =>
+      match o with
+      | QPush prio sq ts =>
+          match pq_push q (Some (mkPkt nid sq ts)) prio with
+          | Ok q' => RUnit :: pq_run q' (nid + 1) tl
+          | r => stop r
+          end
+      | QFind sq =>
+          match pq_find q sq with
+          | Ok w => out_of w :: pq_run q nid tl
+          | Err e => RErr e :: pq_run q nid tl
+          | r => stop r
+          end
+      | QPop =>
+          match pq_pop q with
+          | Ok (w, q') => out_of w :: pq_run q' nid tl
+          | Err e => RErr e :: pq_run q nid tl
+          | r => stop r
+          end
+      | QPopAt sq =>
+          match pq_popat q (KSeq sq) with
+          | Ok (w, q') => out_of w :: pq_run q' nid tl
+          | Err e => RErr e :: pq_run q nid tl
+          | r => stop r
+          end
+      | QPopAtTs ts =>
+          match pq_popat q (KTs ts) with
+          | Ok (w, q') => out_of w :: pq_run q' nid tl
+          | Err e => RErr e :: pq_run q nid tl
+          | r => stop r
+          end
+      | QClear =>
+          match pq_clear q with
+          | Ok q' => RUnit :: pq_run q' nid tl
+          | r => stop r
+          end
+      | QLength => RHead (pq_length q) :: pq_run q nid tl
+      end
+  end.
+
+(* the specification of the queue: a list kept in priority order by
+   insert-before-first->=, with first-match find/removal *)
+Fixpoint aq_run (l : aq) (nid : Z) (ops : list qop) : list out :=
+  match ops with
+  | [] => []
+  | o :: tl =>
+      match o with
+      | QPush prio sq ts => RUnit :: aq_run (aq_push l (Some (mkPkt nid sq ts)) prio) (nid + 1) tl
+      | QFind sq =>
+          match aq_find l sq with
+          | Ok w => out_of w :: aq_run l nid tl
+          | Err e => RErr e :: aq_run l nid tl
+          | r => stop r
+          end
+      | QPop =>
+          match aq_pop l with
+          | Ok (w, l') => out_of w :: aq_run l' nid tl
+          | Err e => RErr e :: aq_run l nid tl
+          | r => stop r
+          end
+      | QPopAt sq =>
+          match aq_popat l (KSeq sq) with
+          | Ok (w, l') => out_of w :: aq_run l' nid tl
+          | Err e => RErr e :: aq_run l nid tl
+          | r => stop r
+          end
+      | QPopAtTs ts =>
+          match aq_popat l (KTs ts) with
+          | Ok (w, l') => out_of w :: aq_run l' nid tl
+          | Err e => RErr e :: aq_run l nid tl
+          | r => stop r
+          end
+      | QClear => RUnit :: aq_run [] nid tl
+      | QLength => RHead (aq_len l) :: aq_run l nid tl
+      end
+  end.
+
+Definition pq_case : Type := (list qop * list out)%type.
+
+Definition pq_mismatches (cases : list pq_case) : list nat :=
+  find_idx (fun c => negb (list_eqb out_eqb (pq_run pq_new 0 (fst c)) (snd c))) cases 0.
+
+(* code 1: the implementation's outputs are not those of the ordered list;
+   code 13/12: a call did not return / panicked *)
+Definition pq_spec_code (c : pq_case) : nat :=
+  if existsb (out_eqb RDiverge) (snd c) then F_hang
+  else if existsb (out_eqb RPanic) (snd c) then F_panic
+  else if list_eqb out_eqb (aq_run [] 0 (fst c)) (snd c) then 0%nat else 1%nat.
+
+Definition pq_spec_failures (cases : list pq_case) : list (Z * Z) := failures pq_spec_code cases 0.
